@@ -673,6 +673,20 @@ def body_hmc_extreme(case, ctx):
     ctx.event("mass=" + cfg["hmc"]["mass"])
 
 
+def _hmc_reversible_cases(tier):
+    from props import c07_hmc_traj as c07
+
+    return c07.cases()
+
+
+def body_hmc_proposal_reversible(case, ctx):
+    """'proposals are reversible': the trajectory map that generates Hamiltonian proposals, over T, bounds and mass kinds
+    (same round-trip oracle as C07; a non-reversible proposal invalidates exp(H0 - H) as the MH probability)"""
+    from props import c07_hmc_traj as c07
+
+    c07.body_reversible(case, ctx)
+
+
 SUBCHECKS = [
     Sub("first-attempt", lambda t: law_configs(), body_first_attempt, quick=96, thorough=800, shards_quick=16, shards_thorough=16, weight=400,
         shrink_budget=(10, 60), case_timeout=(300, 900), rule="T != 1 or limits / bounds or d >= 2, with a first-attempt acceptance rate in [0.02, 0.995]"),
@@ -682,6 +696,8 @@ SUBCHECKS = [
         rule="a history with >= 1 rejection and >= 1 acceptance"),
     Sub("decisions-ensemble", lambda t: ensemble_decision_configs(), body_ensemble_decisions, quick=200, thorough=4000, shards_quick=8, shards_thorough=16, weight=20,
         rule="a history with >= 1 rejected and >= 1 accepted stretch move (d >= 2)"),
+    Sub("hmc-proposal-reversible", _hmc_reversible_cases, body_hmc_proposal_reversible, quick=500, thorough=10000, shards_quick=8, shards_thorough=16,
+        rule=">= 1 wall reflection, or matrix mass, or T != 1"),
     Sub("hmc-extreme", lambda t: hmc_extreme_configs(), body_hmc_extreme, quick=60, thorough=1500, shards_quick=6, shards_thorough=16, weight=20,
         rule=">= 3 stored moves taken with unstable step sizes"),
     Sub("full-step", lambda t: law_configs(classes=("metropolis", "gibbs", "ensemble") if t == "quick" else ("metropolis", "gibbs", "ensemble", "pca", "hmc")), body_full_step, quick=32, thorough=160, shards_quick=8, shards_thorough=16,
